@@ -12,3 +12,14 @@ class WrapA(Wrapped):
 
 def wrap_a(section):
     return WrapA(section)
+
+
+def conv(s):
+    return "c1:" + s
+
+
+def kt(s):
+    """key type: upper-cases (distinguishable from the other levels)"""
+    if not s or not s[0].isalpha() or not s.isascii():
+        raise ValueError("bad key %r" % (s,))
+    return s.upper()
